@@ -29,21 +29,26 @@ CHECKS = {
         design_ref="DESIGN.md sections 5 (C12) and 10.2",
         technique="Coq proof (full functional statement for valid programs via the parser round trip and the typing theorems; robustness and answer shape for all documents) over a Gallina model of the handlers + correspondence through the binary + scoping oracle"),
     "C13": dict(
-        category="other",
-        text="Machine-checked (Props/C13.v, 15 theorems) over the model of references.rs. The first half of the property is a theorem "
-             "for EVERY valid program in every layout (C13_valid, C13_valid_text): at every identifier occurrence and every cursor "
-             "position inside it, find-references returns exactly the other occurrences bound to the same declaration, rename one "
-             "edit per occurrence of that binding (declaration included) and nothing else, none for predefined entities, and "
-             "prepare-rename the identifier's range exactly when rename is offered (occurrences and bindings computed from the tree "
-             "alone, Spec/Nav.v; the answers are even equal as lists in tree order), and the same for every document without "
-             "diagnostics (C13_full : C13_full_statement, by front-end completeness). For ALL documents: no handler panics under "
-             "nav_wf_b, no identifier => null, predefined names never renamed, user names always, prepareRename <=> rename, "
-             "references are rename edits, edits are token ranges with the cursor's name. NOT proved: the second half (applying a "
-             "rename to a fresh name keeps diagnostics and binding partition, renaming back restores the text: "
-             "C13_roundtrip_statement) - decided per input by the oracle (apply with an independent edit model, same diagnostics, "
-             "same partition, rename back restores the text). Tie to the code: model = server on all occurrences x columns.",
+        category="proof",
+        text="Machine-checked (Props/C13.v, 20 theorems) over the model of references.rs; both halves of the property are theorems. "
+             "(1) For EVERY valid program in every layout - and every document without diagnostics (C13_full, by front-end "
+             "completeness) - at every identifier occurrence and every cursor position inside it, find-references returns exactly "
+             "the other occurrences bound to the same declaration, rename one edit per occurrence of that binding (declaration "
+             "included) and nothing else, none for predefined entities, and prepare-rename the identifier's range exactly when "
+             "rename is offered (C13_valid; occurrences and bindings computed from the tree alone, Spec/Nav.v). (2) The round trip "
+             "(C13_roundtrip_valid for every layout, C13_roundtrip for documents without diagnostics): applying the rename to a "
+             "fresh name yields a text that is again the layout of a well-typed program (alpha-renaming preserves the static "
+             "semantics), without diagnostics, whose occurrences are bound together exactly as before position by position, and "
+             "renaming the same occurrence back restores the original text - for every binding except the procedure `main`: "
+             "renaming `main` necessarily adds SPL's own diagnostic `procedure main is missing`, so the statement without that "
+             "exception is refuted (C13_roundtrip_statement_refuted, witness `proc main() {}`); this is the language's rule about "
+             "that one name, not a defect of rename (the oracle expects exactly that diagnostic there). For ALL documents: no "
+             "handler panics, no identifier => null, predefined names never renamed, prepareRename <=> rename, references are "
+             "rename edits, edits are token ranges with the cursor's name. Tie to the code and failing-input search: model = server "
+             "on all occurrences x columns; binding and round-trip oracle (apply with an independent edit model, same diagnostics, "
+             "same partition, rename back restores the text); answers along edit histories.",
         design_ref="DESIGN.md sections 5 (C13) and 10.2",
-        technique="Coq proof (references / rename / prepareRename = the occurrences of one binding, for every valid program, via the parser round trip and the typing theorems; robustness for all documents) over a Gallina model of the handlers + correspondence through the binary + binding/round-trip oracle"),
+        technique="Coq proof (references / rename / prepareRename = the occurrences of one binding; rename round trip via alpha-renaming of the static semantics and lexer locality; for every valid program = document without diagnostics) over a Gallina model of the handlers + correspondence through the binary + binding/round-trip oracle"),
     "C14": dict(
         category="proof",
         text="Machine-checked (Props/C14.v, 22 theorems) over the models of hover.rs and signature_help.rs; both halves of the "
